@@ -628,6 +628,9 @@ func runC12(tier string, args []string) {
 	c12PartA(run, work)
 	run.Extra("A_wall_s", fmt.Sprintf("%.1f", time.Since(t0).Seconds()))
 	wg.Wait()
-	collectRaces(run, work)
+	for i := 0; i < run.Pick(1, 6); i++ {
+		runC12Reconf(run, run.Seed*100+int64(i))
+	}
+	c12RaceVerdict(run, collectRaces(run, work))
 	run.Finish(run.Pick(60, 200))
 }
